@@ -7,6 +7,7 @@ import (
 	"os"
 	"path/filepath"
 	"reflect"
+	"runtime"
 	"strconv"
 	"strings"
 	"time"
@@ -168,6 +169,12 @@ func roundTripCase(c *core.Ctx, idx int, mode int) {
 		if err != nil {
 			rec.Violation("unmarshal-error", fmt.Sprintf("Unmarshal of Marshal's own output failed [%s]: %v\n  type %s\n  value %s\n  bytes %s", tc.name, err, typeString(tc.typ), model.Show(v), hexHead(data)), caseExtra(tc, v, data))
 			return
+		}
+		if j == 4 && idx%5 == 2 {
+			// the decoded value is all that keeps its parts alive: a collection and fresh allocations of
+			// the same small sizes in between must not change it
+			gcChurn()
+			rec.Count("compared_after_gc", 1)
 		}
 		want := tc.cfg.Normalise(v, "", true)
 		if d := model.Diff(want, out.Elem(), "$"); d != "" {
@@ -481,6 +488,25 @@ func bigContainers(c *core.Ctx, idx int, mode int) {
 		rec.Max("big_container_entries", float64(n))
 		rec.NonTrivial(core.Hash64("big", val.Type().String(), opt, fmt.Sprint(n), cfgName(cfg)))
 	}
+}
+
+var churnKeep [][]*int64
+
+// gcChurn runs a garbage collection and then allocates tens of thousands of small objects, filled
+// with ones: memory that the collector wrongly took for dead is handed out again and overwritten
+func gcChurn() {
+	runtime.GC()
+	a := make([]*int64, 0, 30000)
+	for i := 0; i < 30000; i++ {
+		x := int64(-1)
+		a = append(a, &x)
+	}
+	b := make([]*[2]int64, 0, 10000)
+	for i := 0; i < 10000; i++ {
+		b = append(b, &[2]int64{-1, -1})
+	}
+	churnKeep = [][]*int64{a} // keep one generation alive so that the next churn gets other blocks
+	_ = b
 }
 
 // damage returns a copy of a valid encoding that is cut short, has one byte changed, or both
